@@ -27,6 +27,8 @@ class Ctx:
     docs = []           # XML texts rendered in replay mode, in order of construction
     nontrivial = 0      # side channel: paths on which the interesting event happened
     info = {}           # details filled by harnesses (observed / expected / fingerprint)
+    lex = False         # replay only: documents are written as a lexical variant of the same infoset
+    bump = False        # replay only: messages with the default message ID carry a much later one
 
     @classmethod
     def reset(cls, replay=False):
@@ -37,6 +39,8 @@ class Ctx:
         cls.docs = []
         cls.nontrivial = 0
         cls.info = {}
+        cls.lex = False
+        cls.bump = False
 
 
 def hit():
@@ -66,6 +70,52 @@ def render(root):
     return ET.tostring(root, encoding='unicode')
 
 
+def _esc(s):
+    return s.replace('&', '&amp;').replace('<', '&lt;').replace('>', '&gt;')
+
+
+def render_lex(root):
+    """The same infoset as render(root), spelt differently: XML declaration, comments and processing
+    instructions (between elements and in the middle of character data), CDATA sections, character
+    references, <a></a> for <a/>.  The default parser drops comments and PIs and joins the character data
+    around them, so every document means exactly what its render() twin means."""
+    n = [0]
+
+    def chars(s):
+        if not s:
+            return ''
+        n[0] += 1
+        k, h = n[0] % 4, len(s) // 2
+        if k == 0:
+            return '<![CDATA[' + s.replace(']]>', ']]]]><![CDATA[>') + ']]>'
+        if k == 1:
+            return _esc(s[:h]) + '<!--c-->' + _esc(s[h:])
+        if k == 2 and ord(s[0]) >= 32:
+            return '&#x%X;' % ord(s[0]) + _esc(s[1:])
+        return _esc(s[:h]) + '<?ncs cue?>' + _esc(s[h:])
+
+    def el(e):
+        out = ['<', e.tag]
+        for k, v in e.attrib.items():
+            out.append(" %s = '%s'" % (k, _esc(v).replace("'", '&apos;').replace('\n', '&#10;')
+                                        .replace('\r', '&#13;').replace('\t', '&#09;')))
+        out.append('>')
+        out.append(chars(e.text))
+        if len(e) and not e.text:
+            out.append('<!-- -->')
+        for c in e:
+            out.append(el(c))
+            out.append(chars(c.tail))
+        out.append('</%s>' % e.tag)
+        return ''.join(out)
+    return '<?xml version="1.0" encoding="UTF-8"?>\n<!-- lexical variant -->\n' + el(root) + '\n<?end x?>'
+
+
+def doc_text(root):
+    """The text of a document handed to the library in replay mode."""
+    return render_lex(root) if Ctx.lex else render(root)
+
+
 def raw(fn):
     """Run a message/running-order builder but get the bare tree instead of a mosromgr object."""
     old = Ctx.raw
@@ -81,7 +131,7 @@ def wrap(root, cls=None):
     if Ctx.raw:
         return root
     if Ctx.replay:
-        text = render(root)
+        text = doc_text(root)
         Ctx.docs.append(text)
         return (cls or mt.MosFile).from_string(text)
     if cls is None or cls in (mt.MosFile, mt.ElementAction):
@@ -91,6 +141,8 @@ def wrap(root, cls=None):
 
 def envelope(base, msg_id='2', mos_id='m.mos', ncs_id='ncs'):
     lay = Ctx.envelope_layout
+    if Ctx.bump and msg_id == '2':
+        msg_id = '9002'
     if Ctx.ncs_id is not None:
         ncs_id = Ctx.ncs_id
     if lay == 'short':        # fewer header children than a roCreate built with the default layout
